@@ -601,6 +601,15 @@ class GlobReference(Bounded):
         for pt in pats:
             for base in ((), ('b',)):
                 yield {'pattern': list(base + pt), 'paths': [list(p) for p in rng.sample(paths, 12)]}
+        # three and four `**` separated by non-empty runs: the tightest paths (no room to spare) and looser ones
+        for pt in (('**', 'a*', '**', 'b', '**', 'v?'), ('b', '**', 'a*', '**', 'b', '**', '[ab]x'),
+                   ('**', 'b', '**', 'b', '**', 'b', '**', 'a*')):
+            fixed = [b for b in pt if b != '**']
+            names = {'a*': 'a1', 'b': 'b', 'v?': 'v1', '[ab]x': 'ax'}
+            tight = [names[b] for b in fixed]
+            cands = [tight, tight[:1] + ['zz'] + tight[1:], ['zz'] + tight, tight[:-1] + ['zz', 'zz'] + tight[-1:],
+                     tight[:-1], tight + ['zz'], tight[:2] + ['b'] + tight[2:]]
+            yield {'pattern': list(pt), 'paths': cands}
 
     def native_check(self, case, raw):
         from bfg9000.glob import PathGlob as PG
@@ -705,6 +714,8 @@ class FindTree(Bounded):
         ['src/a.c', 'src.old/b.c', 'src-x/e.c', 'src/sub/c.h', 'src/sub/deep/d.h'],
         # names that only *end* like a pattern, and directories that only differ from an excluded one by a suffix
         ['test_a.c', 'mytest_a.c', 'contest_b.c', 'test_b.c', 'draft#1#', 'obj/x.c', 'objs/y.c', 'obj.c', 'sub/test_a.c', 'sub/obj/q.c'],
+        # entries whose names start with dots, at the top of the tree and below it
+        ['..data/x.c', '..config.c', '.../y.c', '.hidden.c', 'sub/..nested.c', 'a.c'],
     ]
     PATTERNS = ['*.c', '**/*.c', 'a/*', 'a/**', '**/', 'src/**/*.c', '**/a/*.c', '*/', 'src/gen/out/**/', 'd/**/*', '**/?.c']
     EXCLUDES = [None, ['*.h'], ['sub/'], ['gen/', 'a.c'], ['a/']]
